@@ -28,6 +28,82 @@ CLAIMED = {
              "regex, split, int) is modelled by the harness printer, not in Coq.",
         technique="Coq proof (induction on clause list + finite float grid by vm_compute) + model/impl correspondence",
     ),
+
+    "C12": dict(
+        category="proof",
+        text=("Per-kernel theorems (Props/C12.v, all closed under the global context): on masked-sorted inputs of any "
+              "length < 2^62 the line-level models of intersect (drop / keep), merge, merge with drop, sort_merge_counts, "
+              "unique, binary and galloping search, popcount_reduce_at, key_sum_over, popcount64_reduce and as_dense "
+              "return exactly their set-theoretic specs (no fault, no fuel exhaustion). adjacent and the fused kernel are "
+              "checked three-way (implementation / extracted model / extracted spec) until their proof lands. "
+              "The check runs real kernels, models and specs on exhaustive small pairs, gallop-depth sweeps, random "
+              "clustered arrays, strided views and adversarial neighbours."),
+        design_ref="DESIGN.md 7 (C12)",
+        note=COMMON_NOTE + "Strides are abstracted in the model (pointer = logical index). No axioms.",
+        technique="Coq proof (loop invariants over fuelled line-level kernel models) + model/impl/spec correspondence",
+    ),
+    "C13": dict(
+        category="proof",
+        text=("Theorems (Props/C13.v, closed): for strictly increasing (key, position) pairs with key < 2^28 and position "
+              "< 2^18 the numpy-level encoder model equals the grouping spec, decode(encode ps) = group_by_key ps, the "
+              "encoding is canonical (strictly increasing headers, no empty word), per-key counts and distinct keys "
+              "computed on it equal those of the input. Slice-by-keys and boundary encoding are checked three-way until "
+              "their proofs land. The check runs the real RoaringishEncoder against model and spec on structured inputs."),
+        design_ref="DESIGN.md 7 (C13)",
+        note=COMMON_NOTE + "Layout constants are regenerated from the source (Gen/SourceConsts.v). No axioms.",
+        technique="Coq proof (induction over groups, permutation + sortedness for decode) + correspondence",
+    ),
+    "C14": dict(
+        category="proof",
+        text=("kernel_safe theorems (Props/C14.v, closed): every access of every kernel model is a checked access and none "
+              "faults, for ARBITRARY (unsorted) inputs, any mask, empty arrays, any search start/target, plus termination "
+              "within the models' fuel; one dead load (unique on an empty array with a shift) is proved to fault in the "
+              "model and is accepted only because its value is unused. Runtime tie (partial): impl == model on exact-fit "
+              "buffers and on interior views with adversarial neighbours, and an AddressSanitizer build of the working "
+              "tree runs the same inputs. Span table and BM25 kernels are not yet in the model."),
+        design_ref="DESIGN.md 7 (C14)",
+        note=COMMON_NOTE + "The theorem is about the model's accesses; real accesses are observed by ASan, not proved. "
+             "Compiler-introduced accesses, alignment and the allocator are outside the model. No axioms.",
+        technique="Coq proof (index-bound invariants on checked-access kernel models) + ASan/canary correspondence",
+    ),
+    "C01": dict(
+        category="other",
+        text=("Executable Coq model of the indexing pipeline (gather, stable sort, boundary encoding, per-batch concat) "
+              "and of termfreqs (popcount reduce + 10-unrolled scatter) compared three-way with the real SearchArray and "
+              "the spec `count of the term per document`; the composition theorem is in progress (its ingredients — codec "
+              "counts, reduction and scatter kernels — are proved)."),
+        design_ref="DESIGN.md 7 (C01)",
+        note=COMMON_NOTE + "Until the composition theorem closes the level is `other` (validated model, proved ingredients).",
+        technique="Coq model + proved kernel/codec lemmas + three-way correspondence",
+    ),
+    "C02": dict(
+        category="other",
+        text=("Executable Coq model of _compute_doc_lens (diff trick + last-document rule), batching and docfreq (shifted "
+              "unique) compared three-way with the real docfreq / doclengths / avg_doc_length (float32 bit pattern vs "
+              "correctly rounded total/n) / corpus_size; composition theorem in progress."),
+        design_ref="DESIGN.md 7 (C02)",
+        note=COMMON_NOTE + "np.mean of a float32 vector equals the correctly rounded exact mean while totals < 2^24 (validated).",
+        technique="Coq model + proved kernel/codec lemmas + three-way correspondence",
+    ),
+    "C03": dict(
+        category="other",
+        text=("Line-level executable Coq model of the bigram chain (fused intersect/adjacent kernel, inner and cross-word "
+              "adjacency, same-term path, adjacency-bit merge, strategy selection) compared three-way with the real "
+              "phrase search and the spec `number of offsets where the phrase occurs` (bounds for phrases with adjacent "
+              "repeats); theorem (bigram step refinement) in progress."),
+        design_ref="DESIGN.md 7 (C03)",
+        note=COMMON_NOTE + "No closed theorem for the chain yet: the decision on generated inputs is by the three-way check.",
+        technique="Coq model + three-way correspondence (proof of the bigram step in progress)",
+    ),
+    "C05": dict(
+        category="other",
+        text=("Executable Coq model of positions() (slice by row keys through the galloping intersect, bitwise decode, "
+              "per-row assembly) compared three-way with the real positions() and the spec `offsets of the term`; the "
+              "codec round trip it rests on is proved (C13)."),
+        design_ref="DESIGN.md 7 (C05)",
+        note=COMMON_NOTE + "Composition theorem in progress.",
+        technique="Coq model + proved codec round trip + three-way correspondence",
+    ),
 }
 
 NOT_YET = "no check registered in this revision (model/proof under construction; see DESIGN.md section 7)"
